@@ -116,7 +116,7 @@ func (g *gen) sessionCases() {
 				// a key built up value by value (len 3, cap 4), a clone, adds on clone and original in either
 				// order, then forms through both: Clone must not share the value slices
 				k := hk.Pick(rng, keys[:3])
-				for j := rng.Range(1, 4); j > 0; j-- {
+				for j := hk.Pick(rng, []int{3, 3, 5, 6, 2, 3, 7, 1}); j > 0; j-- { // append leaves spare capacity at len 3, 5, 6, 7
 					ops = append(ops, sessOp{Op: "cadd", C: 0, Form: []kvs{{K: k, Vs: []string{val()}}}})
 				}
 				ops = append(ops, sessOp{Op: "cclone", C: 0})
